@@ -409,7 +409,7 @@ def run(prop, tier, replay=None):
     chunks_lines, crashes = execute(binary, scheds, nchunks)
     t1 = lap("replay", t1)
     # few, large TLC runs for the judging (JVM start dominates small ones)
-    nj = max(1, min(TIERS[tier]["judge_jvms"], len(chunks_lines)))
+    nj = max(1, min(TIERS[tier]["judge_jvms"], vlib.NCPU, len(chunks_lines)))
     groups = ["".join(chunks_lines[k::nj]) for k in range(nj)]
     nlines = sum(c.count("\n") for c in chunks_lines)
     # binding self-test: a recorded trace with one corrupted field must be rejected by the trace spec
